@@ -132,6 +132,24 @@ def dec(x):
     a = x + {K}
     return a
 ''',
+    "dec2": '''
+@rec
+@rec
+def dec2(x):
+    a = x + {K}
+    return a
+''',
+    "lk": '''
+class LK:
+    def lmake2(self):
+        a = 0
+
+        def lfun2(x):
+            a = x + {K}
+            return a
+
+        return lfun2
+''',
 }
 HEADER = '''
 import functools
@@ -140,7 +158,7 @@ REG = {}
 
 
 def rec(fn):
-    REG[fn.__name__] = fn
+    REG.setdefault(fn.__name__, fn)  # the innermost (real) function when decorators are stacked
 
     @functools.wraps(fn)
     def wrapper(*a):
@@ -149,8 +167,9 @@ def rec(fn):
     return wrapper
 '''
 
-TARGETS = ["top", "meth", "om", "inner", "leaf", "dec", "maker", "deep", "ctop", "hdec", "rfun", "lmaker", "lfun"]  # ctop/hdec share their bare names with top/dec
-PROBE_ONLY = {"maker", "deep", "lmaker"}  # calling them again would create a second live closure
+TARGETS = ["top", "meth", "om", "inner", "leaf", "dec", "maker", "deep", "ctop", "hdec", "rfun", "lmaker", "lfun", "dec2", "lmake2", "lfun2"]  # ctop/hdec share their bare names with top/dec
+PROBE_ONLY = {"maker", "deep", "lmaker", "lmake2"}
+LAZY = {"lfun": "lmaker", "lfun2": "lmake2"}  # instance -> its factory  # calling them again would create a second live closure
 
 _DIR = None
 _N = [0]
@@ -199,20 +218,19 @@ class World:
         self.ks = ks
         self.outer = mod.Outer() if hasattr(mod, "Outer") else None
         self.innerobj = mod.Outer.Inner() if hasattr(mod, "Outer") else None
-        self.lfun = None  # the only instance of lmaker's closure is created by a ("make",) operation
-        self.present = {t for t in TARGETS if t != "lfun" and self._has(t)}  # fixed at import time
+        self.lazy = {}  # the only instance of a lazy closure is created by a ("make", t) operation
+        self.present = {t for t in TARGETS if t not in LAZY and self._has(t)}  # fixed at import time
 
-    def make(self):
-        if self.lfun is None and "lmaker" in self.present:
-            self.lfun = self.mod.lmaker()
-            self.present.add("lfun")
+    def make(self, t="lfun"):
+        if t not in self.lazy and LAZY[t] in self.present:
+            self.lazy[t] = self.mod.lmaker() if t == "lfun" else self.mod.LK().lmake2()
+            self.present.add(t)
             return True
         return False
 
     def env(self):
         e = dict(vars(self.mod))
-        if self.lfun is not None:
-            e["lfun"] = self.lfun
+        e.update(self.lazy)
         return e
 
     def has(self, t):
@@ -220,7 +238,7 @@ class World:
 
     def _has(self, t):
         return {"top": "top", "meth": "Outer", "om": "Outer", "inner": "inner", "leaf": "leaf", "dec": "dec",
-                "maker": "maker", "deep": "deep", "ctop": "Coll", "hdec": "hdec", "rfun": "rfun", "lmaker": "lmaker"}[t] in vars(self.mod)
+                "maker": "maker", "deep": "deep", "ctop": "Coll", "hdec": "hdec", "rfun": "rfun", "lmaker": "lmaker", "dec2": "dec2", "lmake2": "LK"}[t] in vars(self.mod)
 
     def real(self, t):
         """The function object created by the def."""
@@ -229,7 +247,8 @@ class World:
                 "inner": lambda: m.inner, "leaf": lambda: m.leaf, "dec": lambda: m.REG["dec"],
                 "maker": lambda: m.maker, "deep": lambda: m.deep, "ctop": lambda: m.Coll.top,
                 "hdec": lambda: m.hdec, "rfun": lambda: m.rfun, "lmaker": lambda: m.lmaker,
-                "lfun": lambda: self.lfun}[t]()
+                "lfun": lambda: self.lazy["lfun"], "lfun2": lambda: self.lazy["lfun2"],
+                "dec2": lambda: m.REG["dec2"], "lmake2": lambda: m.LK.lmake2}[t]()
 
     def handle(self, t):
         """What a user would pass to refstring()."""
@@ -238,12 +257,14 @@ class World:
                 "inner": lambda: m.inner, "leaf": lambda: m.leaf, "dec": lambda: m.dec,
                 "maker": lambda: m.maker, "deep": lambda: m.deep, "ctop": lambda: m.Coll.top,
                 "hdec": lambda: m.hdec, "rfun": lambda: m.rfun, "lmaker": lambda: m.lmaker,
-                "lfun": lambda: self.lfun}[t]()
+                "lfun": lambda: self.lazy["lfun"], "lfun2": lambda: self.lazy["lfun2"],
+                "dec2": lambda: m.dec2, "lmake2": lambda: m.LK.lmake2}[t]()
 
     def name_selector(self, t):
         return {"top": "top > a", "meth": "Outer.Inner.meth > a", "om": "Outer.om > a", "inner": "inner > a",
                 "leaf": "leaf > a", "dec": "dec > a", "maker": "maker > a", "deep": "deep > a",
-                "ctop": "Coll.top > a", "hdec": "hdec > a", "rfun": "rfun > a", "lmaker": "lmaker > a", "lfun": "lfun > a"}[t]
+                "ctop": "Coll.top > a", "hdec": "hdec > a", "rfun": "rfun > a", "lmaker": "lmaker > a", "lfun": "lfun > a", "dec2": "dec2 > a", "lmake2": "LK.lmake2 > a",
+                "lfun2": "lfun2 > a"}[t]
 
     def call(self, t, x):
         m = self.mod
@@ -253,8 +274,8 @@ class World:
             return self.outer.om(x)
         if t == "ctop":
             return m.Coll().top(x)
-        if t == "lfun":
-            return self.lfun(x)
+        if t in LAZY:
+            return self.lazy[t](x)
         return getattr(m, t)(x)
 
 
@@ -296,20 +317,22 @@ def run_case(order, ks, ops, regime, rec=None):
             if kind == "make":
                 # the closure's one and only instance comes to life now - possibly while its
                 # factory is instrumented
-                live = [s for s in stack if s[0] == "lmaker"]
-                if world.make():
+                lt = op[1] if len(op) > 1 and op[1] in LAZY else "lfun"
+                fac = LAZY[lt]
+                live = [s for s in stack if s[0] == fac]
+                if world.make(lt):
                     done.append(op)
                     for s in live:
                         s[4].append({"a": 0})  # the factory's own `a = 0`
-                    if any(s[0] in ("lmaker", "anc:lmaker") for s in stack):
+                    if any(s[0] in (fac, "anc:" + fac) for s in stack):
                         flags.add("instance-created-under-probe")
-                    states["lfun"] = HY.FnState(world.real("lfun"))
+                    states[lt] = HY.FnState(world.real(lt))
                     pin()
                     try:
-                        refs["lfun"] = refstring(world.handle("lfun"))
+                        refs[lt] = refstring(world.handle(lt))
                     except BaseException as e:
-                        raise PropertyViolation("refstring", f"refstring(lfun) raised {HY.describe_exc(e)}\n{ctxt()}",
-                                                extra={"bucket": "refstring:lfun"})
+                        raise PropertyViolation("refstring", f"refstring({lt}) raised {HY.describe_exc(e)}\n{ctxt()}",
+                                                extra={"bucket": "refstring:" + lt})
                 continue
             if t is not None and not world.has(t):
                 continue
@@ -439,22 +462,24 @@ def strategy(max_ops):
         st.tuples(st.just("call"), tgt, st.integers(0, 9)),
         st.tuples(st.just("resolve"), tgt),
         st.tuples(st.just("resolve"), tgt),
-        st.tuples(st.just("make")),
+        st.tuples(st.just("make"), st.sampled_from(["lfun", "lfun2"])),
     )
 
     @st.composite
     def cases(draw):
         order = draw(st.permutations(sorted(BLOCKS)))
         order = list(order)[: draw(st.integers(2, len(order)))]
-        ks = {t: draw(st.integers(1, 40)) * 20 + i for i, t in enumerate(["top", "meth", "om", "inner", "leaf", "dec", "ctop", "hdec", "rfun", "lfun"])}
+        ks = {t: draw(st.integers(1, 40)) * 20 + i for i, t in enumerate(["top", "meth", "om", "inner", "leaf", "dec", "ctop", "hdec", "rfun", "lfun", "dec2", "lk"])}
+        ks["lfun2"] = ks["lk"]
         # bias: operate mostly on one or two targets so that probes overlap
         focus = draw(st.one_of(
             st.lists(tgt, min_size=1, max_size=2),
             st.sampled_from([["inner", "maker"], ["leaf", "deep"], ["meth", "om"], ["leaf", "deep", "maker"],
-                             ["top", "ctop"], ["dec", "hdec"], ["rfun"], ["lfun", "lmaker"], ["lfun", "lmaker", "lfun"]]),
+                             ["top", "ctop"], ["dec", "hdec"], ["rfun"], ["lfun", "lmaker"], ["lfun", "lmaker", "lfun"], ["lfun2", "lmake2"], ["dec2"],
+                             ["dec2", "dec"]]),
         ))
         ops = draw(st.lists(op, min_size=3, max_size=max_ops))
-        ops = [(o[0], focus[hash(o) % len(focus)], *o[2:]) if len(o) > 1 and draw(st.integers(0, 2)) else o for o in ops]
+        ops = [(o[0], focus[hash(o) % len(focus)], *o[2:]) if len(o) > 1 and o[0] != "make" and draw(st.integers(0, 2)) else o for o in ops]
         regime = draw(st.sampled_from(["scan", "cache"]))
         return order, ks, ops, regime
 
